@@ -786,4 +786,199 @@ theorem expandSpec_int (c m : Nat) (res : Strings.Str) (k : Nat) (h : pyIntStr r
   unfold expandToken
   rw [if_neg h1, if_neg h2, if_neg h3, if_neg hn, if_neg hb, h]
 
+/-! ## the output file across calls -/
+
+/-- puts of pairwise distinct keys, none of which is in the file yet, append -/
+theorem foldl_put_fresh : ∀ (es acc : MFile),
+    (es.map (·.1)).Nodup → (∀ e ∈ es, e.1 ∉ acc.map (·.1)) →
+    (es.map fun e => FileOp.put e.1 e.2).foldl applyOp acc = acc ++ es := by
+  intro es
+  induction es with
+  | nil => intro acc _ _; simp
+  | cons e rest ih =>
+    intro acc hnd hfresh
+    simp only [List.map_cons, List.nodup_cons] at hnd
+    have he : e.1 ∉ acc.map (·.1) := hfresh e (by simp)
+    have hput : putGroup acc e.1 e.2 = acc ++ [e] := by
+      unfold putGroup
+      congr 1
+      rw [List.filter_eq_self]
+      intro a ha
+      have : a.1 ≠ e.1 := fun h => he (h ▸ List.mem_map_of_mem (f := (·.1)) ha)
+      simpa using this
+    simp only [List.map_cons, List.foldl_cons, applyOp, hput]
+    rw [ih (acc ++ [e]) hnd.2]
+    · simp
+    · intro x hx
+      simp only [List.map_append, List.map_cons, List.map_nil, List.mem_append, List.mem_singleton, not_or]
+      refine ⟨hfresh x (List.mem_cons_of_mem _ hx), ?_⟩
+      intro h
+      exact hnd.1 (h ▸ List.mem_map_of_mem (f := (·.1)) hx)
+
+/-- **zoomify_file_prior**: what a run leaves at `outfile` does not depend on what was there before -/
+theorem zoomify_file_prior (prior : MFile) (cs : Nat) (ms : MultSeq) (baseOf : Nat → Option Level) :
+    zoomifyFile prior cs ms baseOf = zoomifyFile [] cs ms baseOf := by
+  simp [zoomifyFile, zoomifyOps, applyOp]
+
+theorem entries_keys (rs : List Nat) : ∀ (ls : List (Option Level)), ls.length = rs.length →
+    (∀ x ∈ ls, x.isSome = true) →
+    (((rs.zip ls).filterMap fun rl => rl.2.map fun l => (GKey.resolution rl.1, l)).map (·.1))
+      = rs.map GKey.resolution := by
+  induction rs with
+  | nil => intro ls _ _; simp
+  | cons r rest ih =>
+    intro ls hlen hall
+    cases ls with
+    | nil => simp at hlen
+    | cons x xs =>
+      have hx := hall x (by simp)
+      obtain ⟨l, rfl⟩ := Option.isSome_iff_exists.mp hx
+      simp only [List.zip_cons_cons, List.filterMap_cons, Option.map_some, List.map_cons]
+      rw [ih xs (by simpa using hlen) (fun y hy => hall y (List.mem_cons_of_mem _ hy))]
+
+/-- **zoomify_file**: after a run over ANY earlier content the file holds exactly the collections of this run —
+`/resolutions/<r>` for `r` in the sorted union, each once, and nothing else -/
+theorem zoomify_file (cs : Nat) (hcs : 1 ≤ cs) (bs : List Nat) (ms : MultSeq)
+    (hv : validMultSeq bs ms = true) (hs : ms.resn.Pairwise (· < ·))
+    (baseOf : Nat → Option Level) (hb : BasesOk bs baseOf) (prior : MFile) :
+    zoomifyFile prior cs ms baseOf = zoomEntries cs ms baseOf ∧
+    (zoomifyFile prior cs ms baseOf).map (·.1) = ms.resn.map GKey.resolution ∧
+    (zoomifyFile prior cs ms baseOf).map (fun e => keyPath e.1) = listing ms (zoomify cs ms baseOf) := by
+  obtain ⟨hlen, hlev⟩ := zoom_levels_eq_chain cs hcs bs ms hv baseOf hb ms.resn.length (Nat.le_refl _)
+  have hall : ∀ x ∈ zoomify cs ms baseOf, x.isSome = true := by
+    intro x hx
+    obtain ⟨i, hi, rfl⟩ := List.getElem_of_mem hx
+    obtain ⟨l, _, hget, _⟩ := hlev i (by unfold zoomify at hi; omega)
+    unfold zoomify
+    rw [List.getElem?_eq_getElem (by unfold zoomify at hi; exact hi)] at hget
+    simp only [Option.some.injEq] at hget
+    rw [hget]; rfl
+  have hkeys : (zoomEntries cs ms baseOf).map (·.1) = ms.resn.map GKey.resolution :=
+    entries_keys ms.resn (zoomify cs ms baseOf) hlen hall
+  have hnd : ((zoomEntries cs ms baseOf).map (·.1)).Nodup := by
+    rw [hkeys]
+    refine List.Pairwise.map _ ?_ hs
+    intro a b hab h
+    injection h with h
+    omega
+  have hfile : zoomifyFile prior cs ms baseOf = zoomEntries cs ms baseOf := by
+    unfold zoomifyFile zoomifyOps
+    rw [List.foldl_cons]
+    simp only [applyOp]
+    rw [foldl_put_fresh _ [] hnd (by simp)]
+    simp
+  refine ⟨hfile, by rw [hfile, hkeys], ?_⟩
+  rw [hfile, zoom_layout cs hcs bs ms hv baseOf hb]
+  have : (zoomEntries cs ms baseOf).map (fun e => keyPath e.1) = ((zoomEntries cs ms baseOf).map (·.1)).map keyPath := by
+    simp
+  rw [this, hkeys]
+  simp [keyPath]
+
+/-- non-vacuity, and why the truncation matters: ladder `{2, 4}` over a base of width 2 written onto a file
+that holds `/resolutions/2, 4, 8` and a legacy level `/3` from earlier runs — the result lists 2 and 4 only;
+the same puts WITHOUT the truncation keep the stale `/resolutions/8` and `/3` -/
+example :
+    let bins : BinTable := [⟨0, 0, 2⟩, ⟨0, 2, 4⟩, ⟨0, 4, 6⟩, ⟨0, 6, 7⟩]
+    let px : Pixels := [⟨0, 1, 1⟩, ⟨2, 3, 5⟩]
+    let ms : MultSeq := ⟨[2, 4], [none, some 0], [none, some 2]⟩
+    let baseOf := lookupBase [(2, (bins, px))]
+    let stale : Level := ([⟨0, 0, 7⟩], [⟨0, 0, 9⟩])
+    let prior : MFile := [(.resolution 2, stale), (.resolution 4, stale), (.resolution 8, stale), (.other "/3", stale)]
+    getMultiplierSequence [4] (some [2]) = .ok ms ∧ validMultSeq [2] ms = true ∧
+    (zoomifyFile prior 2 ms baseOf).map (fun e => keyPath e.1) = ["/resolutions/2", "/resolutions/4"] ∧
+    (((zoomifyOps 2 ms baseOf).tail.foldl applyOp prior).map fun e => keyPath e.1)
+      = ["/resolutions/8", "/3", "/resolutions/2", "/resolutions/4"] := by
+  refine ⟨rfl, by decide, by decide, by decide⟩
+
+/-! ## the items of a `-r` list are expanded independently of one another -/
+
+/-- the items of the option value: split at commas, stripped, lower-cased -/
+def specTokens (spec : Strings.Str) : List Strings.Str :=
+  (Strings.splitChar ',' spec).map fun s => (Strings.strip s).map lower
+
+/-- the loop over the items -/
+def expandTokens (curres maxres : Nat) (toks : List Strings.Str) : Except Err (List Nat) :=
+  toks.foldr
+    (fun tok acc =>
+      match expandToken curres maxres tok, acc with
+      | .ok r, .ok rest => .ok (r ++ rest)
+      | .error e, _ => .error e
+      | _, .error e => .error e)
+    (.ok [])
+
+theorem expandSpec_tokens (c m : Nat) (spec : Strings.Str) :
+    expandResolutionSpec c m spec = expandTokens c m (specTokens spec) := rfl
+
+/-- the list is accepted iff every item is; then a resolution is produced iff SOME item produces it — every item
+is expanded from the same `curres`/`maxres`, whatever items precede it -/
+theorem expandTokens_ok (c m : Nat) : ∀ (toks : List Strings.Str),
+    (∀ t ∈ toks, ∃ r, expandToken c m t = .ok r) →
+    ∃ rs, expandTokens c m toks = .ok rs ∧
+      ∀ x, x ∈ rs ↔ ∃ t ∈ toks, ∃ r, expandToken c m t = .ok r ∧ x ∈ r := by
+  intro toks
+  induction toks with
+  | nil => intro _; exact ⟨[], rfl, by simp⟩
+  | cons t rest ih =>
+    intro h
+    obtain ⟨r, hr⟩ := h t (by simp)
+    obtain ⟨rs, hrs, hmem⟩ := ih (fun u hu => h u (List.mem_cons_of_mem _ hu))
+    refine ⟨r ++ rs, ?_, ?_⟩
+    · show (match expandToken c m t, expandTokens c m rest with
+        | .ok r, .ok rest => Except.ok (r ++ rest)
+        | .error e, _ => .error e
+        | _, .error e => .error e) = _
+      rw [hr, hrs]
+    · intro x
+      simp only [List.mem_append, List.mem_cons, exists_eq_or_imp, hmem x]
+      constructor
+      · rintro (hx | hx)
+        · exact Or.inl ⟨r, hr, hx⟩
+        · exact Or.inr hx
+      · rintro (⟨r', hr', hx⟩ | hx)
+        · rw [hr] at hr'; injection hr' with hr'; subst hr'; exact Or.inl hx
+        · exact Or.inr hx
+
+theorem expandTokens_ok_inv (c m : Nat) : ∀ (toks : List Strings.Str) (rs : List Nat),
+    expandTokens c m toks = .ok rs → ∀ t ∈ toks, ∃ r, expandToken c m t = .ok r := by
+  intro toks
+  induction toks with
+  | nil => intro _ _ t ht; simp at ht
+  | cons u rest ih =>
+    intro rs h t ht
+    have h' : (match expandToken c m u, expandTokens c m rest with
+        | .ok r, .ok rest => Except.ok (r ++ rest)
+        | .error e, _ => .error e
+        | _, .error e => .error e) = .ok rs := h
+    cases hu : expandToken c m u with
+    | error e => rw [hu] at h'; simp at h'
+    | ok r =>
+      cases hrest : expandTokens c m rest with
+      | error e => rw [hu, hrest] at h'; simp at h'
+      | ok rr =>
+        rcases List.mem_cons.mp ht with rfl | ht
+        · exact ⟨r, hu⟩
+        · exact ih rr hrest t ht
+
+/-- **expandSpec_perm**: the SET of resolutions a `-r` list produces does not depend on the order of its items -/
+theorem expandSpec_perm (c m : Nat) (t1 t2 : List Strings.Str) (hp : t1.Perm t2) (r1 : List Nat)
+    (h1 : expandTokens c m t1 = .ok r1) :
+    ∃ r2, expandTokens c m t2 = .ok r2 ∧ ∀ x, x ∈ r1 ↔ x ∈ r2 := by
+  have hall1 := expandTokens_ok_inv c m t1 r1 h1
+  have hall2 : ∀ t ∈ t2, ∃ r, expandToken c m t = .ok r := fun t ht => hall1 t (hp.mem_iff.mpr ht)
+  obtain ⟨r2, h2, hm2⟩ := expandTokens_ok c m t2 hall2
+  obtain ⟨r1', h1', hm1⟩ := expandTokens_ok c m t1 hall1
+  rw [h1] at h1'; injection h1' with h1'; subst h1'
+  refine ⟨r2, h2, fun x => ?_⟩
+  rw [hm1 x, hm2 x]
+  constructor
+  · rintro ⟨t, ht, r, hr, hx⟩; exact ⟨t, hp.mem_iff.mp ht, r, hr, hx⟩
+  · rintro ⟨t, ht, r, hr, hx⟩; exact ⟨t, hp.mem_iff.mpr ht, r, hr, hx⟩
+
+/-- `8n,b` and `b,8n` at current resolution 2, coarsest 17: the same set {2, 4, 8, 16}; a bare `b` after `8n`
+still starts from the current resolution 2 -/
+example : expandResolutionSpec 2 17 ['8', 'n', ',', 'b'] = .ok [8, 16, 2, 4, 8, 16] ∧
+    expandResolutionSpec 2 17 ['b', ',', '8', 'n'] = .ok [2, 4, 8, 16, 8, 16] ∧
+    expandResolutionSpec 2 17 ['4', 'B', ',', ' ', 'N'] = .ok [4, 8, 16, 2, 4, 10] :=
+  ⟨rfl, rfl, rfl⟩
+
 end Cooler.C09
